@@ -126,6 +126,12 @@ fn check_pattern_exhaustiveness_expr(statics: &mut StaticsContext, expr: &Rc<Exp
             }
 
             match_expr_exhaustive_check(statics, expr.node(), scrutiny, arms);
+
+            // matches nested in the scrutinee or in an arm's body are checked as well
+            check_pattern_exhaustiveness_expr(statics, scrutiny);
+            for arm in arms {
+                check_pattern_exhaustiveness_stmt(statics, &arm.stmt);
+            }
         }
 
         ExprKind::Nil
@@ -186,7 +192,9 @@ fn check_pattern_exhaustiveness_expr(statics: &mut StaticsContext, expr: &Rc<Exp
         ExprKind::Try(expr) => {
             check_pattern_exhaustiveness_expr(statics, expr);
         }
-        ExprKind::TaskBlock(_) => {}
+        ExprKind::TaskBlock(block) => {
+            check_pattern_exhaustiveness_expr(statics, block);
+        }
     }
 }
 
